@@ -25,10 +25,12 @@ theorem C14_cli_failure_has_message (fl : Flags) (fs : FS) (input : InputState) 
   split
   · simp
   · split
-    · split
-      · simp
-      · simp only; split <;> simp
     · simp
+    · split
+      · split
+        · simp
+        · simp only; split <;> simp
+      · simp
 
 /-- An unparsable command line (unknown flag, missing value) ends with exit status 2 and changes nothing. -/
 theorem C14_cli_usage_error (fl : Flags) (fs : FS) (input : InputState) (sr : SpecResult) (idValid : String → Bool)
@@ -48,10 +50,12 @@ theorem C14_cli_exit_codes (fl : Flags) (fs : FS) (input : InputState) (sr : Spe
   split
   · simp
   · split
-    · split
-      · simp
-      · simp only; split <;> simp
     · simp
+    · split
+      · split
+        · simp
+        · simp only; split <;> simp
+      · simp
 
 /-- The empty pattern is an error, not a crash (model of the repaired entry points). -/
 theorem C14_empty_pattern : Props.C09.accept [] = .invalid := rfl
